@@ -184,7 +184,7 @@ func (r *Report) Finish() int {
 	sort.Strings(devs)
 	for _, d := range devs {
 		f := r.findings[d]
-		fmt.Printf("KNOWN-FINDING: property=%s %s: %s (seen %d times, e.g. %s)\n", r.Prop, d, f.WhatFails, r.devSeen[d], trunc(r.devEx[d], 200))
+		fmt.Printf("KNOWN-FINDING: property=%s %s: %s (seen %d times, e.g. %s)\n", r.Prop, d, f.WhatFails, r.devSeen[d], trunc(strings.ReplaceAll(r.devEx[d], "\n", " ⏎ "), 240))
 	}
 	cov := map[string]interface{}{
 		"states":                        r.States,
